@@ -29,9 +29,13 @@ Common(r) ==
     << <<"finite", r.finite>>,
        <<"fixed-point-bitwise", (r.fpx => r.fixbits = 0) /\ r.e_fix <= Tol>>,
        <<"as_preconditioner=apply", r.e_aspre <= OTol(r)>>,
+       \* the matrix handed to as_preconditioner as a generic (tuple) matrix with unsorted CRS rows: the same operator
+       <<"as_preconditioner(unsorted rows)=definition", ~r.asu_exc /\ r.e_asu <= OTol(r)>>,
        <<"sweep=dense-definition", r.e_pre <= OTol(r) /\ r.e_post <= OTol(r) /\ r.e_app <= OTol(r)>> >>
 
-Sweeps3(r, pre, post, app) == Close(r.pre, pre, r) /\ Close(r.post, post, r) /\ Close(r.app, app, r)
+\* pre / post sweep, apply(), and apply() of as_preconditioner built from the unsorted-row copy (order inside a row is
+\* not part of the matrix: the rational definition is computed from the row-as-a-function view)
+Sweeps3(r, pre, post, app) == Close(r.pre, pre, r) /\ Close(r.post, post, r) /\ Close(r.app, app, r) /\ Close(r.asu, app, r)
 
 JacobiClauses(r) ==
     LET pre == JacobiSweep(r.A, Wq(r), Fq(r), Xq(r))
